@@ -283,7 +283,9 @@ def run_chunk(chunk):
         for names, shapes in (([3, 2], [1, 1]), ([], []), ([4], [0])):
             for fmt in (0, 1):
                 for pos in (0, 1, 2, -1):
-                    for text in ('# I/O drawer dump', '', '   ', '// 00 11 22', '; AB'):
+                    for text in ('# I/O drawer dump', '', '   ', '// 00 11 22', '; AB',
+                                 # lines that follow the format for a few columns before they break it: no byte of theirs is data
+                                 'Date: 2024-01-01', 'Begin of dump', '0000:  be careful, partial dump', 'Feb 12 10:11:12 dump taken'):
                         _do(res, {'ilog': il, 'names': names, 'shapes': shapes, 'file': True, 'fmt': fmt, 'pad': bool(pos % 2),
                                   'upper': True, 'ins': [pos, text]})
     if il == 1:
